@@ -9,6 +9,7 @@
 package c05drv
 
 import (
+	"strconv"
 	"bufio"
 	"bytes"
 	"encoding/binary"
@@ -542,6 +543,63 @@ func exec(rec *Rec, sites map[string]*site, f []string) string {
 			return "closed"
 		}
 		return "event " + hx(encodeFrom(v, evN))
+	case "signalburst":
+		// signalburst <itf> <helperGo> <subscribeGo> <eventsig> <n> (<sig> <hex>)*: n emissions while the subscriber
+		// does not read, then it reads: how many arrive, and are they the emitted value
+		ch, ok := st.subs[f[3]]
+		if !ok {
+			sm := st.proxy.MethodByName(f[3])
+			if !sm.IsValid() {
+				return "no-subscribe"
+			}
+			outs := sm.Call(nil)
+			if err := lastErr(outs); err != nil {
+				return errClass(err)
+			}
+			ch = outs[1]
+			st.subs[f[3]] = ch
+		}
+		rec.mu.Lock()
+		h := rec.helpers[f[1]]
+		rec.mu.Unlock()
+		if h == nil {
+			return "no-helper"
+		}
+		hm := reflect.ValueOf(h).MethodByName(f[2])
+		if !hm.IsValid() {
+			return "no-helper-method"
+		}
+		n, _ := strconv.Atoi(f[5])
+		args, _ := buildArgs(hm.Type(), 0, f[6:])
+		for i := 0; i < n; i++ {
+			if err := lastErr(hm.Call(args)); err != nil {
+				return errClass(err)
+			}
+		}
+		time.Sleep(300 * time.Millisecond)
+		evN := mustSig(f[4])
+		got, first, same := 0, "", true
+		deadline := time.After(3 * time.Second)
+		for got < n {
+			chosen, v, ok := reflect.Select([]reflect.SelectCase{
+				{Dir: reflect.SelectRecv, Chan: ch},
+				{Dir: reflect.SelectRecv, Chan: reflect.ValueOf(deadline)},
+			})
+			if chosen == 1 || !ok {
+				break
+			}
+			e := hx(encodeFrom(v, evN))
+			if got == 0 {
+				first = e
+			} else if e != first {
+				same = false
+			}
+			got++
+		}
+		if !same {
+			return fmt.Sprintf("events %d differing", got)
+		}
+		return fmt.Sprintf("events %d %s", got, first)
 	case "prop":
 		// prop <itf> <setGo> <getGo> <onChangeGo> <valuesig> <hex> <paramsig>*
 		sm := st.proxy.MethodByName(f[2])
